@@ -692,8 +692,9 @@ impl Kernel {
                     }
                     Seg::Fin => p.fin_rcvd = true,
                     Seg::Rst => {
+                        /* what was delivered before the reset stays readable (Linux copies
+                         * queued data before it reports ECONNRESET) */
                         p.rst = true;
-                        p.buf.clear();
                     }
                 }
             }
@@ -761,10 +762,10 @@ impl Kernel {
         self.with(|k| {
             let c = &mut k.conns[conn];
             let p = &mut c.pipes[1 - side];
-            if p.rst {
-                return Err(libc::ECONNRESET);
-            }
             if p.buf.is_empty() {
+                if p.rst {
+                    return Err(libc::ECONNRESET);
+                }
                 return if p.fin_rcvd { Ok(0) } else { Err(libc::EAGAIN) };
             }
             let n = buf.len().min(p.buf.len());
